@@ -1403,3 +1403,467 @@ Proof.
   split; [exact Hnm|]. split; [|exact Hother].
   unfold dopen. rewrite (find_file_none _ _ Hnf). reflexivity.
 Qed.
+
+(* ------------------------------------------------------------------ *)
+(* Download: arithmetic of positions over a well-formed chunk list *)
+
+Lemma chunks_count cs ds :
+  0 < cs -> chunks_wf cs ds ->
+  zlen ds = Z.quot (zlen (concat ds)) cs + (if Z.rem (zlen (concat ds)) cs =? 0 then 0 else 1).
+Proof.
+  intros Hcs. induction ds as [|d t IH]; intro Hwf.
+  - simpl. reflexivity.
+  - cbn [concat]. rewrite zlen_cons, zlen_app.
+    pose proof (zlen_nonneg d) as Hd0. pose proof (zlen_nonneg (concat t)) as Ht0.
+    rewrite Z.quot_div_nonneg, Z.rem_mod_nonneg by lia.
+    apply chunks_wf_cons in Hwf. destruct Hwf as [[-> Hd]|[Hne [Hd Hwf]]].
+    + simpl concat. rewrite (@zlen_nil Z), (@zlen_nil (list Z)), !Z.add_0_r.
+      destruct (Z.eq_dec (zlen d) cs) as [E|E].
+      * rewrite E, Z_div_same_full, Z_mod_same_full by lia. reflexivity.
+      * rewrite Z.div_small, Z.mod_small by lia.
+        assert (E2 : (zlen d =? 0) = false) by lia. rewrite E2. reflexivity.
+    + rewrite (IH Hwf), Hd.
+      rewrite Z.quot_div_nonneg, Z.rem_mod_nonneg by lia.
+      replace (cs + zlen (concat t)) with (zlen (concat t) + 1 * cs) by lia.
+      rewrite Z.div_add, Z.mod_add by lia. lia.
+Qed.
+
+Lemma skipn_app_le {A} n (a b : list A) : (n <= llen a)%nat -> skipn n (a ++ b) = skipn n a ++ b.
+Proof.
+  intro H. rewrite skipn_app. replace (n - llen a)%nat with 0%nat by lia. reflexivity.
+Qed.
+
+Lemma skipn_app_ge {A} n (a b : list A) : (llen a <= n)%nat -> skipn n (a ++ b) = skipn (n - llen a) b.
+Proof.
+  intro H. rewrite skipn_app, skipn_all2 by lia. reflexivity.
+Qed.
+
+(* seek(position) lands in chunk position/cs at offset position - (position/cs)*cs *)
+Lemma seek_split cs :
+  0 < cs -> forall datas pos,
+  chunks_wf cs datas -> 0 <= pos < zlen (concat datas) ->
+  exists d rest,
+    skipn (Z.to_nat (Z.quot pos cs)) datas = d :: rest /\
+    0 <= pos - Z.quot pos cs * cs <= zlen d /\
+    skipn (Z.to_nat (pos - Z.quot pos cs * cs)) d ++ concat rest = skipn (Z.to_nat pos) (concat datas) /\
+    chunks_wf cs rest /\ Z.quot pos cs + 1 + zlen rest = zlen datas.
+Proof.
+  intros Hcs. induction datas as [|d0 t IH]; intros pos Hwf Hpos.
+  - simpl in Hpos. change (zlen (@nil Z)) with 0 in Hpos. lia.
+  - cbn [concat] in *. rewrite zlen_app in Hpos.
+    pose proof (zlen_nonneg d0) as Hd0. pose proof (zlen_nonneg (concat t)) as Ht0.
+    rewrite Z.quot_div_nonneg by lia.
+    pose proof (chunks_wf_tail _ _ _ Hwf) as Hwft.
+    apply chunks_wf_cons in Hwf.
+    destruct (Z_lt_ge_dec pos cs) as [Hlt|Hge].
+    + (* inside the first chunk *)
+      rewrite Z.div_small by lia. rewrite Z.mul_0_l, Z.sub_0_r. simpl skipn at 1.
+      assert (Hle : pos <= zlen d0).
+      { destruct Hwf as [[-> _]|[_ [Hd _]]]; [cbn [concat] in Hpos; change (zlen (@nil Z)) with 0 in Hpos|]; lia. }
+      exists d0, t. split; [reflexivity|]. split; [lia|]. split; [|split; [exact Hwft | rewrite zlen_cons; lia]].
+      rewrite skipn_app_le by (unfold zlen in Hle; lia). reflexivity.
+    + (* beyond the first chunk, which is therefore full *)
+      assert (Hfull : zlen d0 = cs /\ t <> []).
+      { destruct Hwf as [[-> Hd]|[Hne [Hd _]]]; [cbn [concat] in Hpos; change (zlen (@nil Z)) with 0 in Hpos; lia | auto]. }
+      destruct Hfull as [Hd Hne].
+      assert (Hpos' : 0 <= pos - cs < zlen (concat t)) by lia.
+      destruct (IH (pos - cs) Hwft Hpos') as [d [rest [Hsk [Hoff [Hcat [Hwfr Hcnt]]]]]].
+      rewrite Z.quot_div_nonneg in Hsk, Hoff, Hcat, Hcnt by lia.
+      assert (Hq : pos / cs = (pos - cs) / cs + 1).
+      { replace pos with ((pos - cs) + 1 * cs) at 1 by lia. rewrite Z.div_add by lia. reflexivity. }
+      assert (Hq0 : 0 <= (pos - cs) / cs) by (apply Z.div_pos; lia).
+      rewrite Hq.
+      replace (Z.to_nat ((pos - cs) / cs + 1)) with (S (Z.to_nat ((pos - cs) / cs))) by lia.
+      cbn [skipn]. exists d, rest. split; [exact Hsk|].
+      replace (pos - ((pos - cs) / cs + 1) * cs) with (pos - cs - (pos - cs) / cs * cs) by lia.
+      split; [exact Hoff|]. split; [|split; [exact Hwfr | rewrite zlen_cons; lia]].
+      rewrite Hcat. rewrite skipn_app_ge by (unfold zlen in Hd; lia). f_equal. unfold zlen in Hd. lia.
+Qed.
+
+Lemma firstn_add_split {A} n m (l : list A) : firstn (n + m) l = firstn n l ++ firstn m (skipn n l).
+Proof.
+  revert l. induction n as [|n IH]; intro l; [reflexivity|].
+  destruct l as [|x l]; simpl; [rewrite firstn_nil; reflexivity|]. f_equal. apply IH.
+Qed.
+
+Lemma skipn_add_split {A} n m (l : list A) : skipn (n + m) l = skipn m (skipn n l).
+Proof.
+  revert l. induction n as [|n IH]; intro l; [reflexivity|].
+  destruct l as [|x l]; simpl; [rewrite skipn_nil; reflexivity|]. apply IH.
+Qed.
+
+(* ------------------------------------------------------------------ *)
+(* Download: the Read loop *)
+
+(* the cursor of a download stream positioned inside a well-formed file:
+   `rest` are the payloads of the chunks the cursor has not delivered yet *)
+Record RS (f cs D : Z) (d : dstream) (rest : list (list Z)) : Prop := {
+  rs_cs : f_cs (d_file d) = cs;
+  rs_D : d_chunks d = D;
+  rs_cur : exists k, d_cursor d = Some (number_from f (k + 1) rest) /\ d_chunk d = Some k /\
+                     k + 1 + zlen rest = D;
+  rs_wf : chunks_wf cs rest
+}.
+
+Definition copy_step_of (fuel : nat) (d : dstream) (want read : Z) : dstream * rres :=
+  let n := Z.min (want - read) (zlen (d_buf d)) in
+  let piece := firstn (Z.to_nat n) (d_buf d) in
+  let d1 := d_set_pos (d_with d (d_cursor d) (d_chunk d) (skipn (Z.to_nat n) (d_buf d))) (d_pos d + n) in
+  rcons piece (read_loop fuel d1 want (read + n)).
+
+Lemma read_loop_unfold fuel d want read :
+  read_loop (S fuel) d want read =
+    if read <? want then
+      match d_buf d with
+      | [] =>
+          match dnext d with
+          | (d1, XOk) => copy_step_of fuel d1 want read
+          | (d1, XEOF) => if read =? 0 then (d1, ROk [] (Some EEOF)) else (d1, ROk [] None)
+          | (d1, XErr e) => (d1, ROk [] (Some e))
+          | (d1, XPanic) => (d1, RPanic)
+          end
+      | _ => copy_step_of fuel d want read
+      end
+    else (d, ROk [] None).
+Proof. reflexivity. Qed.
+
+Definition buf_weight (d : dstream) : nat := match d_buf d with [] => 0%nat | _ => 1%nat end.
+
+Lemma read_loop_spec f cs D :
+  0 < cs ->
+  forall fuel d rest want read,
+  RS f cs D d rest ->
+  0 <= read <= want -> (0 < read \/ d_buf d ++ concat rest <> []) ->
+  (1 <= fuel)%nat -> (read < want -> (2 * llen rest + buf_weight d + 2 <= fuel)%nat) ->
+  exists d' rest',
+    read_loop fuel d want read
+      = (d', ROk (firstn (Z.to_nat (want - read)) (d_buf d ++ concat rest)) None) /\
+    RS f cs D d' rest' /\
+    d_buf d' ++ concat rest' = skipn (Z.to_nat (want - read)) (d_buf d ++ concat rest) /\
+    d_pos d' = d_pos d + zlen (firstn (Z.to_nat (want - read)) (d_buf d ++ concat rest)) /\
+    d_file d' = d_file d /\ d_closed d' = d_closed d.
+Proof.
+  intros Hcs. induction fuel as [|fuel IH]; intros d rest want read Hrs Hread Hprog Hf1 Hfuel; [lia|].
+  rewrite read_loop_unfold.
+  destruct (read <? want) eqn:Elt.
+  2:{ (* len(buf) bytes have been read *)
+      replace (want - read) with 0 by lia. exists d, rest. simpl firstn. simpl skipn.
+      rewrite zlen_nil, Z.add_0_r. repeat split; auto; apply Hrs. }
+  specialize (Hfuel ltac:(lia)).
+  (* the copy step, for a stream with a non-empty buffer *)
+  assert (Hcopy : forall d0 rest0,
+            RS f cs D d0 rest0 -> d_buf d0 <> [] -> (2 * llen rest0 + 2 <= fuel)%nat ->
+            exists d' rest',
+              copy_step_of fuel d0 want read
+                = (d', ROk (firstn (Z.to_nat (want - read)) (d_buf d0 ++ concat rest0)) None) /\
+              RS f cs D d' rest' /\
+              d_buf d' ++ concat rest' = skipn (Z.to_nat (want - read)) (d_buf d0 ++ concat rest0) /\
+              d_pos d' = d_pos d0 + zlen (firstn (Z.to_nat (want - read)) (d_buf d0 ++ concat rest0)) /\
+              d_file d' = d_file d0 /\ d_closed d' = d_closed d0).
+  { intros d0 rest0 Hrs0 Hne Hfuel0. unfold copy_step_of.
+    set (n := Z.min (want - read) (zlen (d_buf d0))).
+    assert (Hbl : 0 < zlen (d_buf d0)).
+    { destruct (d_buf d0); [congruence|]. rewrite zlen_cons. pose proof (zlen_nonneg l). lia. }
+    assert (Hn : 1 <= n <= want - read /\ n <= zlen (d_buf d0)) by (subst n; lia).
+    set (d1 := d_set_pos (d_with d0 (d_cursor d0) (d_chunk d0) (skipn (Z.to_nat n) (d_buf d0))) (d_pos d0 + n)).
+    assert (Hrs1 : RS f cs D d1 rest0) by (destruct Hrs0; constructor; assumption).
+    assert (Hw1 : read + n < want -> (2 * llen rest0 + buf_weight d1 + 2 <= fuel)%nat).
+    { intro Hlt. assert (Hall : n = zlen (d_buf d0)) by lia.
+      unfold buf_weight, d1. cbn. rewrite skipn_all_z by lia. lia. }
+    destruct (IH d1 rest0 want (read + n) Hrs1 ltac:(lia) ltac:(left; lia) ltac:(lia) Hw1)
+      as [d' [rest' [Hloop [Hrs' [Hcat [Hpos [Hfile Hclosed]]]]]]].
+    exists d', rest'. rewrite Hloop. cbn [rcons].
+    assert (Hb1 : d_buf d1 = skipn (Z.to_nat n) (d_buf d0)) by reflexivity.
+    assert (Hsk : d_buf d1 ++ concat rest0 = skipn (Z.to_nat n) (d_buf d0 ++ concat rest0)).
+    { rewrite Hb1, skipn_app_le by (unfold zlen in Hn; lia). reflexivity. }
+    assert (Hfn : firstn (Z.to_nat n) (d_buf d0) = firstn (Z.to_nat n) (d_buf d0 ++ concat rest0)).
+    { rewrite firstn_app. replace (Z.to_nat n - llen (d_buf d0))%nat with 0%nat by (unfold zlen in Hn; lia).
+      simpl. rewrite app_nil_r. reflexivity. }
+    assert (Hbytes : firstn (Z.to_nat n) (d_buf d0) ++ firstn (Z.to_nat (want - (read + n))) (d_buf d1 ++ concat rest0)
+                     = firstn (Z.to_nat (want - read)) (d_buf d0 ++ concat rest0)).
+    { rewrite Hsk, Hfn, <- firstn_add_split. f_equal. lia. }
+    rewrite Hbytes. split; [reflexivity|]. split; [exact Hrs'|]. split; [|split; [|split]].
+    - rewrite Hcat, Hsk, <- skipn_add_split. f_equal. lia.
+    - rewrite Hpos, <- Hbytes, zlen_app. unfold d1. cbn [d_pos d_set_pos].
+      rewrite (zlen_firstn (Z.to_nat n) (d_buf d0)). lia.
+    - rewrite Hfile. reflexivity.
+    - rewrite Hclosed. reflexivity. }
+  destruct (d_buf d) as [|b bs] eqn:Ebuf.
+  - (* the buffer is empty: next chunk *)
+    destruct Hrs as [Hfcs HD [k [Hcur [Hchunk Hcnt]]] Hwf].
+    unfold dnext. rewrite Hcur. destruct rest as [|e rest'].
+    + (* cursor exhausted: EOF only if nothing has been read *)
+      cbn [number_from]. simpl in Hprog.
+      assert (Er : (read =? 0) = false) by (destruct Hprog as [H|H]; [lia | congruence]). rewrite Er.
+      exists d, []. rewrite Ebuf. simpl. rewrite firstn_nil, skipn_nil, zlen_nil, Z.add_0_r.
+      split; [reflexivity|]. split; [constructor; auto; exists k; auto|]. auto.
+    + cbn [number_from]. rewrite Hchunk. cbn [c_n c_data].
+      rewrite Z.eqb_refl. cbn [negb].
+      assert (Esz : ((k + 1 <? d_chunks d - 1) && negb (zlen e =? f_cs (d_file d))) = false).
+      { rewrite HD, Hfcs. destruct (k + 1 <? D - 1) eqn:Ek; [|reflexivity].
+        rewrite zlen_cons in Hcnt. apply chunks_wf_cons in Hwf.
+        destruct Hwf as [[-> _]|[_ [He _]]]; [rewrite zlen_nil in Hcnt; lia|].
+        assert (E2 : (zlen e =? cs) = true) by lia. rewrite E2. reflexivity. }
+      rewrite Esz.
+      set (d1 := d_with d (Some (number_from f (k + 1 + 1) rest')) (Some (k + 1)) e).
+      pose proof (Forall_inv (chunks_wf_nonempty cs _ Hcs Hwf)) as He. cbv beta in He.
+      assert (Hrs1 : RS f cs D d1 rest').
+      { constructor; auto.
+        - exists (k + 1). split; [reflexivity|]. split; [reflexivity|]. rewrite zlen_cons in Hcnt. lia.
+        - eapply chunks_wf_tail; exact Hwf. }
+      assert (Hne1 : d_buf d1 <> []).
+      { unfold d1. cbn. intro E. apply (f_equal zlen) in E. rewrite (@zlen_nil Z) in E. lia. }
+      destruct (Hcopy d1 rest' Hrs1 Hne1) as [d' [rest'' [Hc [Hrs' [Hcat [Hpos [Hfile Hclosed]]]]]]].
+      { unfold buf_weight in Hfuel. rewrite Ebuf in Hfuel. simpl llen in Hfuel. lia. }
+      exists d', rest''. rewrite Hc. cbn [concat app]. split; [reflexivity|]. split; [exact Hrs'|].
+      split; [exact Hcat|]. split; [exact Hpos|]. split; [exact Hfile | exact Hclosed].
+  - (* bytes left in the buffer *)
+    cbv iota. rewrite <- Ebuf.
+    destruct (Hcopy d rest Hrs ltac:(rewrite Ebuf; discriminate)) as [d' [rest' [Hc H]]].
+    { unfold buf_weight in Hfuel. rewrite Ebuf in Hfuel. lia. }
+    exists d', rest'. rewrite Hc. split; [reflexivity | exact H].
+Qed.
+
+(* ------------------------------------------------------------------ *)
+(* Download: a stream over a well-formed file behaves like bytes_reader *)
+
+(* the file f is stored in st as the canonical chunking of content *)
+Definition wf_file (st : store) (f cs : Z) (content : list Z) : Prop :=
+  0 < cs /\
+  find_chunks st f = number_from f 0 (split cs content) /\
+  find_file st f = Some (mkFile f (zlen content) cs).
+
+Lemma stored_wf_file c f cs content st : 0 < cs -> Stored c f cs content st -> wf_file st f cs content.
+Proof.
+  intros Hcs [Hch Hfile _ _]. split; [exact Hcs|]. split.
+  - apply find_chunks_number. exact Hch.
+  - unfold find_file. eapply find_of_filter. exact Hfile.
+Qed.
+
+(* the dynamic part: buffer and cursor hold exactly the content from `pos` on *)
+Definition Dyn (f cs : Z) (content : list Z) (d : dstream) (pos : Z) : Prop :=
+  exists rest,
+    d_buf d ++ concat rest = skipn (Z.to_nat pos) content /\
+    ((d_cursor d = None /\ rest = [] /\ d_buf d = []) \/ RS f cs (zlen (split cs content)) d rest).
+
+Record DInv (f cs : Z) (content : list Z) (d : dstream) (pos : Z) : Prop := {
+  di_file : d_file d = mkFile f (zlen content) cs;
+  di_chunks : d_chunks d = zlen (split cs content);
+  di_open : d_closed d = false;
+  di_pos : d_pos d = pos;
+  di_nonneg : 0 <= pos;
+  di_dyn : Dyn f cs content d pos
+}.
+
+Lemma dseek_spec st f cs content d position :
+  wf_file st f cs content ->
+  d_file d = mkFile f (zlen content) cs -> d_chunks d = zlen (split cs content) ->
+  0 <= position ->
+  exists d', dseek st d position = (d', SOk) /\ Dyn f cs content d' position /\
+             d_file d' = d_file d /\ d_chunks d' = d_chunks d /\
+             d_closed d' = d_closed d /\ d_pos d' = d_pos d.
+Proof.
+  intros [Hcs [Hfc Hff]] Hfile Hchunks Hpos. unfold dseek.
+  assert (E0 : (position <? 0) = false) by lia. rewrite E0, Hfile. cbn [f_length f_cs f_id].
+  destruct (position >=? zlen content) eqn:Eend.
+  - (* at or beyond the end: no cursor, empty buffer *)
+    eexists. split; [reflexivity|]. split; [|cbn; rewrite Hfile; auto].
+    exists []. split; [|left; auto]. cbn. rewrite skipn_all_z by lia. reflexivity.
+  - destruct (split_wf cs content Hcs) as [Hcat Hwf].
+    destruct (seek_split cs Hcs (split cs content) position Hwf ltac:(rewrite Hcat; lia))
+      as [e [rest [Hsk [Hoff [Hdata [Hwfr Hcnt]]]]]].
+    rewrite Hfc, number_from_skipn, Hsk. cbn [number_from c_n c_data].
+    assert (Hq : 0 <= Z.quot position cs) by (rewrite Z.quot_div_nonneg by lia; apply Z.div_pos; lia).
+    rewrite Z2Nat.id, Z.add_0_l, Z.eqb_refl by exact Hq. cbn [negb].
+    assert (Esz : ((Z.quot position cs <? d_chunks d - 1) && negb (zlen e =? cs)) = false).
+    { rewrite Hchunks. destruct (Z.quot position cs <? zlen (split cs content) - 1) eqn:Ek; [|reflexivity].
+      assert (Hne : rest <> []) by (intro; subst rest; rewrite zlen_nil in Hcnt; lia).
+      assert (Hwf2 : chunks_wf cs (e :: rest)).
+      { rewrite <- Hsk. clear - Hwf. revert Hwf. generalize (split cs content).
+        induction (Z.to_nat (Z.quot position cs)) as [|n IH]; intros l Hl; [exact Hl|].
+        destruct l as [|x l]; [exact I|]. simpl. apply IH. eapply chunks_wf_tail; exact Hl. }
+      apply chunks_wf_cons in Hwf2. destruct Hwf2 as [[-> _]|[_ [He _]]]; [congruence|].
+      assert (E2 : (zlen e =? cs) = true) by lia. rewrite E2. reflexivity. }
+    rewrite Esz.
+    assert (Eoff : (position - Z.quot position cs * cs >? zlen e) = false) by lia. rewrite Eoff.
+    eexists. split; [reflexivity|]. split; [|cbn; auto].
+    exists rest. cbn [d_buf d_with]. split; [rewrite Hdata, Hcat; reflexivity|].
+    right. constructor; cbn; auto.
+    + rewrite Hfile. reflexivity.
+    + exists (Z.quot position cs). split; [reflexivity|]. split; [reflexivity | exact Hcnt].
+Qed.
+
+Lemma dopen_spec st f cs content :
+  wf_file st f cs content -> exists d, dopen st f = DOpened d /\ DInv f cs content d 0.
+Proof.
+  intros Hwf. pose proof Hwf as [Hcs [Hfc Hff]]. unfold dopen. rewrite Hff. cbn [f_cs f_length].
+  assert (E : (cs <=? 0) = false) by lia. rewrite E.
+  destruct (split_wf cs content Hcs) as [Hcat Hwfs].
+  pose proof (chunks_count cs _ Hcs Hwfs) as Hcount. rewrite Hcat in Hcount. rewrite <- Hcount.
+  set (d0 := mkD (mkFile f (zlen content) cs) (zlen (split cs content)) 0 None None [] false).
+  destruct (dseek_spec st f cs content d0 0 Hwf eq_refl eq_refl ltac:(lia))
+    as [d' [Hseek [Hdyn [Hf [Hc [Hcl Hp]]]]]].
+  rewrite Hseek. exists d'. split; [reflexivity|]. constructor; auto; lia.
+Qed.
+
+(* one Read *)
+Lemma dread_equiv f cs content d pos n :
+  0 < cs -> DInv f cs content d pos -> 0 <= n ->
+  exists d',
+    dread d n = (d', match snd (br_read (mkB content pos) n) with
+                     | ORead b e => ROk b e
+                     | _ => RPanic
+                     end) /\
+    DInv f cs content d' (br_pos (fst (br_read (mkB content pos) n))).
+Proof.
+  intros Hcs [Hfile Hchunks Hopen Hpos Hnn [rest [Hrem Hcur]]] Hn.
+  unfold dread, br_read. rewrite Hopen, Hfile, Hpos. cbn [f_length br_pos br_data].
+  destruct (pos >=? zlen content) eqn:Eend.
+  - exists d. split; [reflexivity|]. constructor; auto. exists rest. auto.
+  - assert (Hne : d_buf d ++ concat rest <> []).
+    { rewrite Hrem. intro E. apply (f_equal zlen) in E. rewrite zlen_skipn, zlen_nil in E. lia. }
+    destruct Hcur as [[_ [-> Hb]]|Hrs]; [rewrite Hb in Hne; simpl in Hne; congruence|].
+    assert (Hcl : cursor_len d = llen rest).
+    { destruct Hrs as [_ _ [k [Hc _]] _]. unfold cursor_len. rewrite Hc.
+      pose proof (number_from_zlen f (k + 1) rest) as H. unfold zlen in H. lia. }
+    destruct (read_loop_spec f cs _ Hcs (S (S (S (2 * cursor_len d)))) d rest n 0 Hrs ltac:(lia)
+                ltac:(right; exact Hne) ltac:(lia))
+      as [d' [rest' [Hloop [Hrs' [Hcat [Hp [Hf Hc]]]]]]].
+    { intros _. rewrite Hcl. unfold buf_weight. destruct (d_buf d); lia. }
+    rewrite Z.sub_0_r, Hrem in Hloop, Hcat, Hp.
+    exists d'. split; [exact Hloop|]. cbn [fst br_pos].
+    constructor.
+    + rewrite Hf. exact Hfile.
+    + destruct Hrs' as [_ HD _ _]. exact HD.
+    + rewrite Hc. exact Hopen.
+    + rewrite Hp, Hpos. reflexivity.
+    + pose proof (zlen_nonneg (firstn (Z.to_nat n) (skipn (Z.to_nat pos) content))). lia.
+    + exists rest'. split; [|right; exact Hrs'].
+      rewrite Hcat. set (s := skipn (Z.to_nat pos) content).
+      replace (Z.to_nat (pos + zlen (firstn (Z.to_nat n) s)))
+        with (Z.to_nat pos + Nat.min (Z.to_nat n) (llen s))%nat
+        by (rewrite zlen_firstn; unfold zlen; lia).
+      rewrite skipn_add_split. fold s.
+      destruct (Nat.le_gt_cases (Z.to_nat n) (llen s)).
+      * rewrite Nat.min_l by lia. reflexivity.
+      * rewrite Nat.min_r by lia. rewrite skipn_all, skipn_all2 by lia. reflexivity.
+Qed.
+
+Definition valid_whence (w : Z) : Prop := w = 0 \/ w = 1 \/ w = 2.
+
+(* one Seek *)
+Lemma dseek_equiv st f cs content d pos offset whence :
+  wf_file st f cs content -> DInv f cs content d pos -> valid_whence whence ->
+  exists d',
+    dseek_whence st d offset whence
+      = (d', match snd (br_seek (mkB content pos) offset whence) with
+             | OPos p => POk p
+             | OErr e => PErr e
+             | _ => PPanic
+             end) /\
+    DInv f cs content d' (br_pos (fst (br_seek (mkB content pos) offset whence))).
+Proof.
+  intros Hwf Hinv Hw. pose proof Hinv as [Hfile Hchunks Hopen Hpos Hnn Hdyn].
+  unfold dseek_whence, br_seek. rewrite Hopen, Hfile, Hpos. cbn [f_length br_pos br_data].
+  assert (Ew : ((whence <? 0) || (whence >? 2)) = false) by (unfold valid_whence in Hw; lia). rewrite Ew.
+  set (position := if whence =? 0 then offset else if whence =? 1 then pos + offset
+                   else if whence =? 2 then zlen content + offset else 0).
+  assert (Eabs : (if whence =? 0 then offset else if whence =? 1 then pos + offset
+                  else zlen content + offset) = position).
+  { subst position. unfold valid_whence in Hw.
+    destruct (whence =? 0) eqn:E0; [reflexivity|]. destruct (whence =? 1) eqn:E1; [reflexivity|].
+    assert (E2 : (whence =? 2) = true) by lia. rewrite E2. reflexivity. }
+  rewrite Eabs.
+  destruct (position <? 0) eqn:Eneg.
+  - (* negative position: error, nothing changes *)
+    unfold dseek. rewrite Eneg. exists d. split; [reflexivity|]. exact Hinv.
+  - destruct (dseek_spec st f cs content d position Hwf Hfile Hchunks ltac:(lia))
+      as [d' [Hseek [Hdyn' [Hf [Hc [Hcl Hp]]]]]].
+    rewrite Hseek. eexists. split; [reflexivity|]. cbn [fst br_pos].
+    destruct Hdyn' as [rest [Hrem Hcur]].
+    constructor; cbn; try congruence; try lia.
+    exists rest. split; [exact Hrem|].
+    destruct Hcur as [Hnone|Hrs]; [left; exact Hnone|]. right.
+    destruct Hrs as [H1 H2 H3 H4]. constructor; auto.
+Qed.
+
+Definition valid_op (o : dop) : Prop :=
+  match o with
+  | DRead n => 0 <= n
+  | DSeek _ w => valid_whence w
+  | DSkip _ => True
+  end.
+
+Lemma dstep_equiv st f cs content d pos op :
+  wf_file st f cs content -> DInv f cs content d pos -> valid_op op ->
+  exists d',
+    dstep st d op = (d', snd (br_step (mkB content pos) op)) /\
+    DInv f cs content d' (br_pos (fst (br_step (mkB content pos) op))) /\
+    br_data (fst (br_step (mkB content pos) op)) = content.
+Proof.
+  intros Hwf Hinv Hv. pose proof Hwf as [Hcs _]. destruct op as [n|o w|n]; cbn [dstep br_step].
+  - destruct (dread_equiv f cs content d pos n Hcs Hinv Hv) as [d' [Hr Hinv']].
+    exists d'. rewrite Hr. split; [|split; [exact Hinv'|]].
+    + unfold br_read. cbn [br_pos br_data]. destruct (pos >=? zlen content); reflexivity.
+    + unfold br_read. cbn [br_pos br_data]. destruct (pos >=? zlen content); reflexivity.
+  - destruct (dseek_equiv st f cs content d pos o w Hwf Hinv Hv) as [d' [Hr Hinv']].
+    exists d'. rewrite Hr. split; [|split; [exact Hinv'|]].
+    + unfold br_seek. cbn. destruct ((w <? 0) || (w >? 2)); [reflexivity|].
+      match goal with |- context [if ?c <? 0 then _ else _] => destruct (c <? 0) end; reflexivity.
+    + unfold br_seek. cbn. destruct ((w <? 0) || (w >? 2)); [reflexivity|].
+      match goal with |- context [if ?c <? 0 then _ else _] => destruct (c <? 0) end; reflexivity.
+  - unfold dskip.
+    destruct (dseek_equiv st f cs content d pos n 1 Hwf Hinv ltac:(right; left; reflexivity)) as [d' [Hr Hinv']].
+    exists d'. rewrite Hr. split; [|split; [exact Hinv'|]].
+    + unfold br_seek. cbn.
+      match goal with |- context [if ?c <? 0 then _ else _] => destruct (c <? 0) end; reflexivity.
+    + unfold br_seek. cbn.
+      match goal with |- context [if ?c <? 0 then _ else _] => destruct (c <? 0) end; reflexivity.
+Qed.
+
+Lemma run_download_equiv st f cs content :
+  wf_file st f cs content ->
+  forall script d pos,
+  DInv f cs content d pos -> Forall valid_op script ->
+  fst (run_download st d script) = fst (run_reader (mkB content pos) script) /\
+  d_pos (snd (run_download st d script)) = br_pos (snd (run_reader (mkB content pos) script)).
+Proof.
+  intros Hwf. induction script as [|op t IH]; intros d pos Hinv Hv.
+  - simpl. split; [reflexivity|]. destruct Hinv; assumption.
+  - inversion Hv as [|? ? Hop Ht]; subst.
+    destruct (dstep_equiv st f cs content d pos op Hwf Hinv Hop) as [d' [Hstep [Hinv' Hdata]]].
+    cbn [run_download run_reader]. rewrite Hstep.
+    destruct (br_step (mkB content pos) op) as [r1 o] eqn:Ebr. cbn [fst snd] in *.
+    assert (Hr1 : r1 = mkB content (br_pos r1)) by (destruct r1; cbn in *; congruence).
+    destruct (IH d' (br_pos r1) Hinv' Ht) as [H1 H2]. rewrite <- Hr1 in H1, H2.
+    destruct (run_download st d' t) as [os d2]. destruct (run_reader r1 t) as [os' r2].
+    cbn [fst snd] in *. split; [congruence | exact H2].
+Qed.
+
+(* C18, download part: any script of Read / Seek / Skip on the download stream
+   of a stored file returns the same bytes, positions, errors and EOFs as the
+   same script on an in-memory reader of the content *)
+Theorem download_equiv_partial st f cs content script :
+  wf_file st f cs content -> Forall valid_op script ->
+  exists d, dopen st f = DOpened d /\
+            fst (run_download st d script) = fst (run_reader (bytes_reader content) script) /\
+            d_pos (snd (run_download st d script)) = br_pos (snd (run_reader (bytes_reader content) script)).
+Proof.
+  intros Hwf Hv. destruct (dopen_spec st f cs content Hwf) as [d [Hopen Hinv]].
+  exists d. split; [exact Hopen|]. apply (run_download_equiv st f cs content Hwf script d 0 Hinv Hv).
+Qed.
+
+(* C18, end to end: what was uploaded (any partition, any suspensions) is what
+   any download script sees *)
+Theorem roundtrip c f cs content uscript st0 dscript :
+  0 < cs <= cfg_B c -> script_ok c uscript -> fresh st0 f -> ids_fresh st0 -> Forall valid_op dscript ->
+  exists st d,
+    client_upload c st0 f cs content uscript = Some st /\ dopen st f = DOpened d /\
+    fst (run_download st d dscript) = fst (run_reader (bytes_reader content) dscript).
+Proof.
+  intros Hcs Hok Hfresh Hids Hv.
+  destruct (client_upload_canonical c f cs content uscript st0 Hcs Hok Hfresh Hids) as [st [Hrun [Hst _]]].
+  destruct (download_equiv_partial st f cs content dscript (stored_wf_file c f cs content st ltac:(lia) Hst) Hv)
+    as [d [Hopen [Hobs _]]].
+  exists st, d. auto.
+Qed.
